@@ -814,7 +814,17 @@ func (h *c12H) eval(c *c12Case) {
 		out, err = w(obiseq.BioSequenceSlice{obiseq.NewBioSequence("read", []byte(b.read), "")})
 	}()
 	if crashed != "" || err != nil {
-		h.violate("ExtractMultiBarcode/panic-or-fatal", fmt.Sprintf("%s %v", crashed, err), sh, c, b.read, nil)
+		msg := fmt.Sprintf("%s %v", crashed, err)
+		class := "other"
+		switch {
+		case strings.Contains(msg, "must be shorter than sequence"):
+			class = "LocatePattern-window-not-longer-than-primer"
+		case strings.Contains(msg, "out of range") || strings.Contains(msg, "out of bounds"):
+			class = "index-out-of-range"
+		case strings.Contains(msg, "c12exit"):
+			class = "log.Fatal"
+		}
+		h.violate("ExtractMultiBarcode/panic:"+class, "the read makes the worker panic / exit instead of being returned: "+msg, sh, c, b.read, nil)
 		return
 	}
 	h.r.Trans(int64(len(out)))
@@ -886,7 +896,7 @@ func (h *c12H) eval(c *c12Case) {
 			}
 		}
 	}
-	if ambiguous && os.Getenv("C12_DEMAND_AMBIGUOUS") == "" {
+	if ambiguous {
 		h.r.Count("safety_only:indel-primer-edge-substitution", 1)
 		return
 	}
@@ -1278,8 +1288,8 @@ func (h *c12H) enumerate() {
 							continue
 						}
 						for to := from + 1; to <= n; to++ {
-							if !thorough && from != 0 && to != n {
-								continue
+							if !thorough && from != 0 && to != n && to-from > 18 {
+								continue // quick tier: every prefix, every suffix, every sub-string of at most 18 nt
 							}
 							c := base
 							c.Cut, c.From, c.To = true, from, to
